@@ -1,8 +1,13 @@
+mod attack;
+mod cryptod;
 mod local;
+mod mempoold;
 mod multi;
+mod netd;
 mod rig;
 mod seq;
 mod util;
+mod verifym;
 
 fn main() {
     // A panic inside code under test is data: record it, never abort the harness.
@@ -15,6 +20,13 @@ fn main() {
     let code = match cmd {
         "multi" => multi::main(&rest),
         "local" => local::main(&rest),
+        "attack" => attack::main(&rest),
+        "verify" => verifym::main(&rest),
+        "crypto" => cryptod::crypto_main(&rest),
+        "digests" => cryptod::digests_main(&rest),
+        "rsender" => netd::rsender_main(&rest),
+        "batch" => mempoold::batch_main(&rest),
+        "qw" => mempoold::qw_main(&rest),
         "agg" => seq::agg_main(&rest),
         "committee" => seq::committee_main(&rest),
         "store" => seq::store_main(&rest),
